@@ -268,9 +268,22 @@ CONSTANTS
   Nests = {10, 200, 30000}
   SafeNest = 500
   UnsafeNest = 20000
+  FiberNests = {2, 63, 64, 65, 300, 1200}
 INVARIANTS FramesRespected %(inv)s Emit EmitNests
 CHECK_DEADLOCK FALSE
 """
+
+
+FNESTS = []          # StackBudget.tla's fiber-nesting outcomes of the last stack_budget() run (replayed by C09)
+
+
+def fiber_nest_src(n, aborted=()):
+    """fibers nested n deep, each calling the next (the innermost returns its depth); before that, one run per entry of `aborted` that dies
+    with an uncaught exception that many fibers deep (snippets of one interpreter)"""
+    lib = ("fn nest(n) { if n == 0 { return 0; } var f = Fiber.new(|| nest(n - 1)); return f.call() + 1; }\n"
+           "fn die(n) { if n == 0 { throw \"dies deep inside\"; } var f = Fiber.new(|| die(n - 1)); return f.call(); }\n")
+    snips = [lib] + ["die(%d);\n" % d for d in aborted] + ["print(nest(%d));\nvar g = Fiber.new(|| { Fiber.yield(1); return 2; });\nprint((g.call(), g.call()));\n" % n]
+    return snips
 
 
 def stack_budget(rep, ideal, tier):
@@ -281,8 +294,9 @@ def stack_budget(rep, ideal, tier):
     with open(path, "w") as f:
         f.write(SB_CFG % {"depths": depths, "check": "TRUE" if ideal else "FALSE", "inv": "SlotsRespected" if ideal else ""})
     lim, nest = [], []
+    FNESTS[:] = []
     res = run_tlc("StackBudget", path, workers=2, timeout=600, keep_lines=False, tag="c02sb",
-                  on_line=lambda t, o: lim.append(o) if t == "LIMIT" else nest.append(o) if t == "NEST" else None)
+                  on_line=lambda t, o: lim.append(o) if t == "LIMIT" else nest.append(o) if t == "NEST" else FNESTS.append(o) if t == "FNEST" else None)
     os.remove(path)
     if res.violation:
         rep.violation("StackBudget.tla (%s): TLC reports\n%s" % ("ideal" if ideal else "as built", res.violation[:1500]), {"tlc": res.violation})
